@@ -66,11 +66,16 @@ func Scan(data string, loc SourceLoc, delims []string) (tokens []Token) {
 				Source:    source,
 				Name:      data[m[4]:m[5]],
 			}
+			trimRight := source[len(source)-len(delims[3])-1] == '-'
 			if m[6] > 0 {
 				tok.Args = data[m[6]:m[7]]
+				// in a tag without arguments ({% name -%}) the argument pattern takes the trim hyphen: give it back
+				if hyphen := te - len(delims[3]) - 1; trimRight && m[7] > hyphen {
+					tok.Args = strings.TrimRight(data[m[6]:hyphen], " \t\r\n")
+				}
 			}
 			tokens = append(tokens, tok)
-			if source[len(source)-len(delims[3])-1] == '-' {
+			if trimRight {
 				tokens = append(tokens, Token{
 					Type: TrimRightTokenType,
 				})
